@@ -26,6 +26,12 @@ func DecodeEscape(in *bytes.Buffer, byteMode bool) (out *bytes.Buffer, err error
 	decodeHex := func(what byte, i, size int) error {
 		i++
 		if i+size <= len(runes) {
+			// only hex digits are allowed (ParseInt on its own would accept a sign)
+			for _, r := range runes[i : i+size] {
+				if !('0' <= r && r <= '9' || 'a' <= r && r <= 'f' || 'A' <= r && r <= 'F') {
+					return py.ExceptionNewf(py.ValueError, "invalid \\%c escape at position %d", what, i-2)
+				}
+			}
 			cout, err := strconv.ParseInt(string(runes[i:i+size]), 16, 32)
 			if err != nil {
 				return py.ExceptionNewf(py.ValueError, "invalid \\%c escape at position %d", what, i-2)
